@@ -3,10 +3,11 @@
    SetValue / Encode / Decode that follows the discipline
      - every SetValue(x, y, v) has v >= every threshold used before on that tree (tmax), and
      - every query (x, y) is encoded with threshold the and decoded with threshold thd where
-       the = thd, or the leaf value is below both; and a leaf value below the encoder
-       threshold is below 999 (the reset value).
+       the = thd, or the leaf has a value and it is below both.
+   No bound on the values is needed (nodes that hold the reset placeholder are `unset`).
    tt_query_sync: under the invariant the decoder consumes exactly the encoder's bits and
-   returns the leaf value when it is below the threshold (999 = "not yet known" otherwise).
+   returns the leaf value when it is set and below the threshold, and some number >= its
+   threshold otherwise.
    tt_setvalue_inv: SetValue keeps the invariant. *)
 From V Require Import Common.Base T2.T2Bio T2.T2TagTree T2.T2ProofsBio T2.T2ProofsStore T2.T2ProofsTagTree.
 
@@ -16,15 +17,16 @@ Proof. intros A a b H. injection H. auto. Qed.
 Lemma pair_eq_dec : forall a b : Z * Z, {a = b} + {a <> b}.
 Proof. decide equality; apply Z.eq_dec. Qed.
 
-(* values do not increase from the leaf to the root: adjacent pairs of the stack *)
+(* from the leaf to the root: a set node has a set parent with a value not above its own *)
 Definition decr_adj (t : ttree) (P : list (Z * Z)) : Prop :=
-  forall pre a b post, P = pre ++ a :: b :: post -> nv t b <= nv t a.
+  forall pre a b post, P = pre ++ a :: b :: post -> nu t a = false -> nu t b = false /\ nv t b <= nv t a.
 
 Lemma adj_incr : forall t l,
-  (forall pre a b post, l = pre ++ a :: b :: post -> nv t a <= nv t b) -> incr_chain t l.
+  (forall pre a b post, l = pre ++ a :: b :: post -> nu t b = false -> nu t a = false /\ nv t a <= nv t b) ->
+  incr_chain t l.
 Proof.
   intros t l. induction l as [|a l IH]; intros H; [exact I|]. destruct l as [|b l']; [exact I|].
-  change (nv t a <= nv t b /\ incr_chain t (b :: l')). split.
+  change ((nu t b = false -> nu t a = false /\ nv t a <= nv t b) /\ incr_chain t (b :: l')). split.
   - apply (H [] a b l'). reflexivity.
   - apply IH. intros pre x y post E. apply (H (a :: pre) x y post). rewrite E. reflexivity.
 Qed.
@@ -39,19 +41,22 @@ Qed.
 Lemma decr_adj_tail : forall t a l, decr_adj t (a :: l) -> decr_adj t l.
 Proof. intros t a l H pre x y post E. apply (H (a :: pre) x y post). rewrite E. reflexivity. Qed.
 
-Lemma decr_adj_le_head : forall t l a, decr_adj t (a :: l) -> forall id, In id l -> nv t id <= nv t a.
+Lemma decr_adj_le_head : forall t l a, decr_adj t (a :: l) -> nu t a = false ->
+  forall id, In id l -> nu t id = false /\ nv t id <= nv t a.
 Proof.
-  intros t l. induction l as [|b l IH]; intros a H id Hin; [contradiction|].
-  assert (Hb : nv t b <= nv t a) by (apply (H [] a b l); reflexivity).
-  destruct Hin as [<-|Hin]; [exact Hb|].
-  specialize (IH b (decr_adj_tail _ _ _ H) id Hin). lia.
+  intros t l. induction l as [|b l IH]; intros a H Hu id Hin; [contradiction|].
+  assert (Hb : nu t b = false /\ nv t b <= nv t a) by (apply (H [] a b l); [reflexivity | exact Hu]).
+  destruct Hb as [Hub Hb].
+  destruct Hin as [<-|Hin]; [split; assumption|].
+  destruct (IH b (decr_adj_tail _ _ _ H) Hub id Hin) as [A B]. split; [exact A | lia].
 Qed.
 
 (* ---------- the invariant ---------- *)
 
 Definition TTInv (te td : ttree) (tmax : Z) : Prop :=
   wf_tree te /\ same_geom te td /\ 0 <= tmax /\
-  (forall id, vid te id -> NodeRel te td id /\ NodeInv te id /\ nl te id <= tmax /\ 0 <= nv te id) /\
+  (forall id, vid te id -> NodeRel te td id /\ NodeInv te id /\ nl te id <= tmax /\
+                           (nu te id = false -> 0 <= nv te id)) /\
   (forall x y, tt_in_range te x y = true -> decr_adj te (tt_path te x y)).
 
 Lemma wf_tree_geom : forall t t', wf_tree t -> same_geom t t' -> wf_tree t'.
@@ -93,36 +98,38 @@ Proof.
 Qed.
 
 Definition all_fresh (te td : ttree) : Prop :=
-  forall id, vid te id -> nv te id = 999 /\ nl te id = 0 /\ nk te id = false /\ nv td id = 999 /\ nl td id = 0.
+  forall id, vid te id -> nu te id = true /\ nl te id = 0 /\ nk te id = false /\ nu td id = true /\ nl td id = 0.
 
 Lemma TTInv_fresh : forall te td, wf_tree te -> same_geom te td -> all_fresh te td -> TTInv te td 0.
 Proof.
   intros te td Hwf Hg Hf. unfold TTInv. split; [exact Hwf|]. split; [exact Hg|]. split; [lia|]. split.
   - intros id Hv. destruct (Hf id Hv) as [A [B [C [D E]]]].
-    unfold NodeRel, NodeInv. rewrite A, B, C, D, E. repeat split; try lia.
-  - intros x y Hr pre a b post E.
+    unfold NodeRel, NodeInv. rewrite A, B, C, D, E.
+    split; [split; [reflexivity | split; [reflexivity | discriminate]]|].
+    split; [split; [discriminate | discriminate]|]. split; [lia | discriminate].
+  - intros x y Hr pre a b post E Hua.
     assert (Ha : In a (tt_path te x y)) by (rewrite E; apply in_or_app; right; left; reflexivity).
-    assert (Hb : In b (tt_path te x y)) by (rewrite E; apply in_or_app; right; right; left; reflexivity).
-    destruct (Hf a (wf_path_valid te x y a Hwf Hr Ha)) as [A _].
-    destruct (Hf b (wf_path_valid te x y b Hwf Hr Hb)) as [B _]. lia.
+    destruct (Hf a (wf_path_valid te x y a Hwf Hr Ha)) as [A _]. congruence.
 Qed.
 
 Lemma new_values : forall w h id, vid (tt_new w h) id ->
-  nv (tt_new w h) id = 999 /\ nl (tt_new w h) id = 0 /\ nk (tt_new w h) id = false.
+  nu (tt_new w h) id = true /\ nl (tt_new w h) id = 0 /\ nk (tt_new w h) id = false.
 Proof.
   intros w h id Hv. pose proof (wf_same_shapes _ (tt_new_wf w h)) as Hs.
   pose proof (same_shapes_vid_low _ _ Hs Hv) as Hl. pose proof (same_shapes_vid_known _ _ Hs Hv) as Hk.
-  unfold vid in Hv. unfold nv, nl, nk, tt_new in *. cbn [tt_nodes tt_low tt_known] in *.
+  pose proof (same_shapes_vid_unset _ _ Hs Hv) as Hu.
+  unfold nu, nl, nk, tt_new in *. cbn [tt_nodes tt_low tt_known tt_unset] in *.
   repeat split; (apply get2_const; [|assumption]); intros row Hrow x Hx;
     apply in_map_iff in Hrow as [d [<- _]]; unfold zrep in Hx; apply repeat_spec in Hx; exact Hx.
 Qed.
 
 Lemma reset_values : forall t id, same_shapes t -> vid t id ->
-  nv (tt_reset t) id = 999 /\ nl (tt_reset t) id = 0 /\ nk (tt_reset t) id = false.
+  nu (tt_reset t) id = true /\ nl (tt_reset t) id = 0 /\ nk (tt_reset t) id = false.
 Proof.
   intros t id Hs Hv.
   pose proof (same_shapes_vid_low _ _ Hs Hv) as Hl. pose proof (same_shapes_vid_known _ _ Hs Hv) as Hk.
-  unfold vid in Hv. unfold nv, nl, nk, tt_reset. cbn [tt_nodes tt_low tt_known].
+  pose proof (same_shapes_vid_unset _ _ Hs Hv) as Hu.
+  unfold nu, nl, nk, tt_reset. cbn [tt_nodes tt_low tt_known tt_unset].
   repeat split; (apply get2_const;
     [intros row Hrow x Hx; apply in_map_iff in Hrow as [row0 [<- _]]; apply in_map_iff in Hx as [x0 [<- _]]; reflexivity
     | rewrite (valid2_shape _ _ _ _ (map_shape _ _)); assumption]).
@@ -130,7 +137,7 @@ Qed.
 
 Lemma reset_geom : forall t, same_shapes t -> same_geom t (tt_reset t).
 Proof.
-  intros t [H1 H2]. unfold same_geom, same_shapes, tt_reset. cbn [tt_w tt_h tt_lw tt_nodes tt_low tt_known].
+  intros t [H1 [H2 H3]]. unfold same_geom, same_shapes, tt_reset. cbn [tt_w tt_h tt_lw tt_nodes tt_low tt_known tt_unset].
   rewrite !map_shape. repeat split; assumption.
 Qed.
 
@@ -146,13 +153,16 @@ Qed.
 Theorem tt_query_sync : forall te td tmax x y the thd bs te' rest r more,
   TTInv te td tmax -> tt_in_range te x y = true ->
   let leaf := (0, y * tt_w te + x) in
-  (the = thd \/ (nv te leaf < the /\ nv te leaf < thd)) -> (nv te leaf < the -> nv te leaf < 999) ->
+  (the = thd \/ (nu te leaf = false /\ nv te leaf < the /\ nv te leaf < thd)) ->
   tt_encode te x y the = Ok (bs, te') -> BitsAt rest r (bs ++ more) ->
   exists res td' r', tt_decode td r x y thd = Ok (res, td', r') /\ BitsAt rest r' more /\
-    TTInv te' td' (Z.max tmax the) /\ tt_nodes te' = tt_nodes te /\ same_geom te te' /\
-    res = (if nk te' leaf then nv te leaf else 999) /\ (nv te leaf < the -> nk te' leaf = true).
+    TTInv te' td' (Z.max tmax the) /\ tt_nodes te' = tt_nodes te /\ tt_unset te' = tt_unset te /\
+    same_geom te te' /\
+    (nk te' leaf = true -> res = nv te leaf) /\ (nk te' leaf = false -> thd <= res) /\
+    (nu te leaf = false -> nv te leaf < the -> nk te' leaf = true) /\
+    (nk te' leaf = true -> nu te leaf = false).
 Proof.
-  intros te td tmax x y the thd bs te' rest r more [Hwf [Hg [Ht0 [Hids Hchain]]]] Hr leaf Hc Hq He HB.
+  intros te td tmax x y the thd bs te' rest r more [Hwf [Hg [Ht0 [Hids Hchain]]]] Hr leaf Hc He HB.
   pose proof (wf_same_shapes te Hwf) as Hse.
   assert (Hsd : same_shapes td) by apply Hg.
   destruct (wf_leaf_id te x y Hwf) as [prest Hp]. fold leaf in Hp.
@@ -163,41 +173,36 @@ Proof.
   apply ok_inj in He.
   set (ids := rev (tt_path te x y)) in *.
   assert (Hin_ids : forall id, In id ids -> In id (tt_path te x y)) by (intros id H; apply in_rev; exact H).
-  assert (Hle : forall id, In id ids -> nv te id <= nv te leaf).
-  { intros id Hin. apply Hin_ids in Hin. rewrite Hp in Hin. destruct Hin as [<-|Hin]; [lia|].
-    apply (decr_adj_le_head te prest leaf Hdec id Hin). }
+  assert (Hle : forall id, In id ids -> nu te leaf = false -> nu te id = false /\ nv te id <= nv te leaf).
+  { intros id Hin Hul. apply Hin_ids in Hin. rewrite Hp in Hin. destruct Hin as [<-|Hin]; [split; [exact Hul | lia]|].
+    apply (decr_adj_le_head te prest leaf Hdec Hul id Hin). }
   assert (Hleaf_in : In leaf ids) by (apply in_rev; unfold ids; rewrite rev_involutive, Hp; left; reflexivity).
-  assert (Hleaf999 : nv te leaf <= 999).
-  { pose proof (wf_path_valid te x y leaf Hwf Hr (Hin_ids leaf Hleaf_in)) as Hv.
-    destruct (Hids leaf Hv) as [_ [[[_ B] _] _]]. exact B. }
   destruct (nodes_sync ids te td 0 the thd tmax bs te' rest r more) as
-    [td' [r' [Edec [HB' [Hn' [Hge [Hgd [Hfr Hpost]]]]]]]]; try assumption.
+    [td' [r' [Edec [HB' [Hn' [Hu' [Hge [Hgd [Hfr Hpost]]]]]]]]]; try assumption.
   - apply NoDup_rev. apply wf_path_nodup.
   - apply Hg.
   - intros id Hin. pose proof (wf_path_valid te x y id Hwf Hr (Hin_ids id Hin)) as Hv.
-    destruct (Hids id Hv) as [A [B [C D]]]. pose proof (Hle id Hin) as Hl.
-    destruct B as [[B1 B2] B3].
-    unfold node_pre. split; [exact Hv|]. split; [exact A|]. split; [split; [split|]; assumption|].
-    split; [destruct Hc as [Hc|[Hc1 Hc2]]; [left; exact Hc | right; lia]|]. split; [|exact C].
-    intros Hlt. destruct (Z.eq_dec (nv te id) 999) as [E|E]; [|lia].
-    assert (nv te leaf < the) by lia. specialize (Hq H). lia.
+    destruct (Hids id Hv) as [A [B [C D]]].
+    unfold node_pre. split; [exact Hv|]. split; [exact A|]. split; [exact B|]. split; [|exact C].
+    destruct Hc as [Hc|[Hc0 [Hc1 Hc2]]]; [left; exact Hc|]. right.
+    destruct (Hle id Hin Hc0) as [Hu Hl]. split; [exact Hu | lia].
   - apply decr_adj_rev. rewrite Hp. exact Hdec.
-  - intros a l E. assert (Ha : In a ids) by (rewrite E; left; reflexivity).
-    pose proof (wf_path_valid te x y a Hwf Hr (Hin_ids a Ha)) as Hv. destruct (Hids a Hv) as [_ [_ [_ D]]]. exact D.
+  - intros a l E Hua. assert (Ha : In a ids) by (rewrite E; left; reflexivity).
+    pose proof (wf_path_valid te x y a Hwf Hr (Hin_ids a Ha)) as Hv. destruct (Hids a Hv) as [_ [_ [_ D]]].
+    apply D. exact Hua.
   - (* the decoder *)
     assert (Hvalid_d : forallb (tt_valid_id td) (tt_path td x y) = true).
     { apply forallb_valid; [apply (wf_tree_geom te td Hwf Hg) | rewrite (in_range_geom te td x y Hg); exact Hr]. }
-    exists (if nk te' leaf then nv te leaf else 999), td', r'.
+    assert (Hnv' : forall i, nv te' i = nv te i) by (intros i; unfold nv; rewrite Hn'; reflexivity).
+    assert (Hnu' : forall i, nu te' i = nu te i) by (intros i; unfold nu; rewrite Hu'; reflexivity).
+    destruct (Hpost leaf Hleaf_in) as [[_ [Hru Hrv]] [[_ Pk] [P3 _]]].
+    set (nd := nv td' leaf).
+    exists (if nu td' leaf && (thd >? nd) then thd else nd), td', r'.
     split.
     { unfold tt_decode. rewrite (in_range_geom te td x y Hg), Hr. cbn [negb].
       rewrite Hvalid_d. cbn [negb]. rewrite (path_geom te td x y Hg). rewrite Hp.
-      rewrite <- Hp. fold ids. rewrite Edec. cbn [obind fst snd].
-      destruct (Hpost leaf Hleaf_in) as [[_ Hrv] _].
-      unfold leaf at 1 2. change (get2 (tt_nodes td') 0 (y * tt_w te + x) 0) with (nv td' leaf).
-      rewrite Hrv. assert (Hnv' : nv te' leaf = nv te leaf) by (unfold nv; rewrite Hn'; reflexivity).
-      rewrite Hnv'. reflexivity. }
+      rewrite <- Hp. fold ids. rewrite Edec. cbn [obind fst snd]. reflexivity. }
     split; [exact HB'|].
-    assert (Hnv' : forall i, nv te' i = nv te i) by (intros i; unfold nv; rewrite Hn'; reflexivity).
     split.
     { unfold TTInv. split; [apply (wf_tree_geom te te' Hwf Hge)|].
       split.
@@ -206,16 +211,24 @@ Proof.
       split; [lia|]. split.
       - intros id Hv. apply (vid_geom te te' id Hge) in Hv.
         destruct (in_dec pair_eq_dec id ids) as [Hin|Hnin].
-        + destruct (Hpost id Hin) as [P1 [P2 [P3 P4]]]. destruct (Hids id Hv) as [_ [_ [_ D]]].
-          split; [exact P1|]. split; [exact P2|]. split; [exact P4 | rewrite Hnv'; exact D].
-        + destruct (Hfr id Hnin) as [A1 [A2 [A3 A4]]]. destruct (Hids id Hv) as [[R1 R2] [[[I1 I2] I3] [I4 I5]]].
-          unfold NodeRel, NodeInv. rewrite !Hnv', A1, A2, A3, A4.
-          repeat split; try assumption; lia.
+        + destruct (Hpost id Hin) as [P1 [P2 [_ P4]]]. destruct (Hids id Hv) as [_ [_ [_ D]]].
+          split; [exact P1|]. split; [exact P2|]. split; [exact P4 | rewrite Hnv', Hnu'; exact D].
+        + destruct (Hfr id Hnin) as [A1 [A2 [A3 [A4 A5]]]].
+          destruct (Hids id Hv) as [[R1 [R2 R3]] [[I1 I2] [I4 I5]]].
+          unfold NodeRel, NodeInv. rewrite !Hnv', !Hnu', A1, A2, A3, A4, A5.
+          split; [split; [exact R1 | split; [exact R2 | exact R3]]|].
+          split; [split; [exact I1 | exact I2]|]. split; [lia | exact I5].
       - intros x1 y1 Hr1. rewrite (in_range_geom te te' x1 y1 Hge) in Hr1.
-        rewrite (path_geom te te' x1 y1 Hge). intros pre a b post E. rewrite !Hnv'.
+        rewrite (path_geom te te' x1 y1 Hge). intros pre a b post E. rewrite !Hnv', !Hnu'.
         apply (Hchain x1 y1 Hr1 pre a b post E). }
-    split; [exact Hn'|]. split; [exact Hge|]. split; [reflexivity|].
-    destruct (Hpost leaf Hleaf_in) as [_ [_ [P3 _]]]. exact P3.
+    split; [exact Hn'|]. split; [exact Hu'|]. split; [exact Hge|].
+    rewrite Hnv' in Hrv.
+    split.
+    { intros Hk. rewrite Hru, Hk. cbn [negb andb]. unfold nd. apply Hrv. exact Hk. }
+    split.
+    { intros Hk. rewrite Hru, Hk. cbn [negb andb]. destruct (Z.gtb_spec thd nd); lia. }
+    split; [exact P3|].
+    intros Hk. destruct (Pk Hk) as [A _]. rewrite Hnu' in A. exact A.
 Qed.
 
 (* encoding a leaf inside the grid of a well-formed tree never fails *)
@@ -227,14 +240,14 @@ Proof.
   destruct (tt_enc_nodes te (rev (tt_path te x y)) 0 thr) as [bs te']. exists bs, te'. reflexivity.
 Qed.
 
-Lemma enc_loop_01 : forall fuel L thr v k bs L' k', tt_enc_loop fuel L thr v k = (bs, L', k') -> Forall bit01 bs.
+Lemma enc_loop_01 : forall fuel L thr v u k bs L' k', tt_enc_loop fuel L thr v u k = (bs, L', k') -> Forall bit01 bs.
 Proof.
-  induction fuel as [|f IH]; intros L thr v k bs L' k' H; cbn [tt_enc_loop] in H.
+  induction fuel as [|f IH]; intros L thr v u k bs L' k' H; cbn [tt_enc_loop] in H.
   - inversion H. constructor.
   - destruct (L <? thr).
-    + destruct (L >=? v).
+    + destruct (negb u && (L >=? v)).
       * inversion H. destruct k; [constructor | constructor; [right; reflexivity | constructor]].
-      * destruct (tt_enc_loop f (L + 1) thr v k) as [[bs1 l1] k1] eqn:E. inversion H; subst.
+      * destruct (tt_enc_loop f (L + 1) thr v u k) as [[bs1 l1] k1] eqn:E. inversion H; subst.
         constructor; [left; reflexivity | eapply IH; exact E].
     + inversion H. constructor.
 Qed.
@@ -243,7 +256,7 @@ Lemma enc_nodes_01 : forall ids t low thr bs t', tt_enc_nodes t ids low thr = (b
 Proof.
   induction ids as [|[lv idx] ids IH]; intros t low thr bs t' H; cbn [tt_enc_nodes] in H.
   - inversion H. constructor.
-  - destruct (tt_enc_loop _ _ _ _ _) as [[bs1 l2] k2] eqn:E1.
+  - destruct (tt_enc_loop _ _ _ _ _ _) as [[bs1 l2] k2] eqn:E1.
     destruct (tt_enc_nodes _ ids l2 thr) as [bs2 t3] eqn:E2. inversion H; subst.
     apply Forall_app. split; [eapply enc_loop_01; exact E1 | eapply IH; exact E2].
 Qed.
@@ -259,51 +272,68 @@ Qed.
 (* ---------- SetValue ---------- *)
 
 Definition gv (nodes : list (list Z)) (id : Z * Z) : Z := get2 nodes (fst id) (snd id) 0.
+Definition gu (unset : list (list bool)) (id : Z * Z) : bool := get2 unset (fst id) (snd id) false.
 
-Lemma setvalue_ids_spec : forall ids nodes v, NoDup ids ->
-  (forall id, In id ids -> valid2 nodes (fst id) (snd id) = true) ->
-  let nodes' := tt_setvalue_ids nodes ids v in
-  shape nodes' = shape nodes /\
+Lemma setvalue_ids_spec : forall ids nodes unset v, NoDup ids ->
+  (forall id, In id ids -> valid2 nodes (fst id) (snd id) = true /\ valid2 unset (fst id) (snd id) = true) ->
+  let nodes' := fst (tt_setvalue_ids nodes unset ids v) in
+  let unset' := snd (tt_setvalue_ids nodes unset ids v) in
+  shape nodes' = shape nodes /\ shape unset' = shape unset /\
   exists ch un, ids = ch ++ un /\
-    (forall id, In id ch -> gv nodes id > v /\ gv nodes' id = v) /\
-    (forall id, ~ In id ch -> gv nodes' id = gv nodes id) /\
-    (forall u l, un = u :: l -> gv nodes u <= v).
+    (forall id, In id ch -> (gu unset id = true \/ gv nodes id > v) /\ gv nodes' id = v /\ gu unset' id = false) /\
+    (forall id, ~ In id ch -> gv nodes' id = gv nodes id /\ gu unset' id = gu unset id) /\
+    (forall u l, un = u :: l -> gu unset u = false /\ gv nodes u <= v).
 Proof.
-  induction ids as [|[lv idx] ids IH]; intros nodes v Hnd Hval nodes'.
-  - subst nodes'. cbn [tt_setvalue_ids]. split; [reflexivity|]. exists [], [].
-    split; [reflexivity|]. split; [intros id []|]. split; [reflexivity | intros u l E; discriminate].
-  - subst nodes'. cbn [tt_setvalue_ids].
-    pose proof (Hval (lv, idx) ltac:(left; reflexivity)) as Hv0. cbn [fst snd] in Hv0.
+  induction ids as [|[lv idx] ids IH]; intros nodes unset v Hnd Hval nodes' unset'.
+  - subst nodes' unset'. cbn [tt_setvalue_ids fst snd]. split; [reflexivity|]. split; [reflexivity|]. exists [], [].
+    split; [reflexivity|]. split; [intros id []|]. split; [intros; split; reflexivity | intros u l E; discriminate].
+  - subst nodes' unset'. cbn [tt_setvalue_ids].
+    destruct (Hval (lv, idx) ltac:(left; reflexivity)) as [Hv0 Hvu0]. cbn [fst snd] in Hv0, Hvu0.
     pose proof Hv0 as Hv0'. apply valid2_spec in Hv0' as [V1 [V2 [V3 V4]]].
     assert (Hnb : (idx >=? zlen (znth nodes lv [])) = false).
     { destruct (Z.geb_spec idx (zlen (znth nodes lv []))) as [H|H]; [|reflexivity].
       rewrite znth_nth in H by lia. unfold zlen in H. lia. }
     rewrite Hnb.
     apply NoDup_cons_iff in Hnd as [Hnotin Hnd'].
-    destruct (Z.gtb_spec (get2 nodes lv idx 0) v) as [Hgt|Hle].
-    + set (nodes1 := set2 nodes lv idx v).
-      assert (Hval1 : forall id, In id ids -> valid2 nodes1 (fst id) (snd id) = true).
-      { intros id Hin. unfold nodes1. rewrite (valid2_shape _ nodes) by apply set2_shape.
+    destruct (get2 unset lv idx false || (get2 nodes lv idx 0 >? v)) eqn:Econd.
+    + set (nodes1 := set2 nodes lv idx v). set (unset1 := set2 unset lv idx false).
+      assert (Hval1 : forall id, In id ids -> valid2 nodes1 (fst id) (snd id) = true /\ valid2 unset1 (fst id) (snd id) = true).
+      { intros id Hin. unfold nodes1, unset1.
+        rewrite (valid2_shape (set2 nodes lv idx v) nodes) by apply set2_shape.
+        rewrite (valid2_shape (set2 unset lv idx false) unset) by apply set2_shape.
         apply Hval. right. exact Hin. }
-      destruct (IH nodes1 v Hnd' Hval1) as [Hs [ch [un [E [Hch [Hun Hu]]]]]].
-      assert (Hg1 : forall id, id <> (lv, idx) -> gv nodes1 id = gv nodes id).
-      { intros id Hne. unfold gv, nodes1. apply get2_set2_other. intros Heq. apply Hne.
-        destruct id as [i1 i2]. cbn [fst snd] in Heq. congruence. }
-      assert (Hg0 : gv nodes1 (lv, idx) = v) by (unfold gv, nodes1; cbn [fst snd]; apply get2_set2_same; exact Hv0).
+      destruct (IH nodes1 unset1 v Hnd' Hval1) as [Hs [Hsu [ch [un [E [Hch [Hun Hu]]]]]]].
+      assert (Hg1 : forall id, id <> (lv, idx) -> gv nodes1 id = gv nodes id /\ gu unset1 id = gu unset id).
+      { intros id Hne. unfold gv, gu, nodes1, unset1.
+        assert (Hp : (lv, idx) <> (fst id, snd id)).
+        { intros Heq. apply Hne. destruct id as [i1 i2]. cbn [fst snd] in Heq. congruence. }
+        split; apply get2_set2_other; exact Hp. }
+      assert (Hg0 : gv nodes1 (lv, idx) = v /\ gu unset1 (lv, idx) = false).
+      { unfold gv, gu, nodes1, unset1; cbn [fst snd]. split; apply get2_set2_same; assumption. }
       assert (Hnch : ~ In (lv, idx) ch) by (intros H; apply Hnotin; rewrite E; apply in_or_app; left; exact H).
-      split; [rewrite Hs; apply set2_shape|].
+      split; [rewrite Hs; apply set2_shape|]. split; [rewrite Hsu; apply set2_shape|].
       exists ((lv, idx) :: ch), un. split; [rewrite E; reflexivity|]. split.
       * intros id [<-|Hin].
-        -- split; [unfold gv; cbn [fst snd]; lia|]. rewrite (Hun (lv, idx) Hnch). exact Hg0.
+        -- split.
+           { unfold gu, gv. cbn [fst snd]. apply Bool.orb_true_iff in Econd as [Ec|Ec]; [left; exact Ec|].
+             right. apply Z.gtb_lt in Ec. lia. }
+           destruct (Hun (lv, idx) Hnch) as [A B]. rewrite A, B. exact Hg0.
         -- assert (Hne : id <> (lv, idx)) by (intros ->; contradiction).
-           destruct (Hch id Hin) as [A B]. rewrite Hg1 in A by exact Hne. split; assumption.
+           destruct (Hch id Hin) as [A [B C]]. destruct (Hg1 id Hne) as [G1 G2]. rewrite G1, G2 in A.
+           split; [exact A | split; assumption].
       * split.
         -- intros id Hn. assert (Hne : id <> (lv, idx)) by (intros ->; apply Hn; left; reflexivity).
-           rewrite Hun by (intros H; apply Hn; right; exact H). apply Hg1. exact Hne.
-        -- intros u l Eu. rewrite <- Hg1; [apply (Hu u l Eu)|].
-           intros ->. apply Hnotin. rewrite E, Eu. apply in_or_app. right. left. reflexivity.
-    + split; [reflexivity|]. exists [], ((lv, idx) :: ids). split; [reflexivity|].
-      split; [intros id []|]. split; [reflexivity|]. intros u l E. inversion E; subst. unfold gv. cbn [fst snd]. lia.
+           destruct (Hun id ltac:(intros H; apply Hn; right; exact H)) as [A B]. destruct (Hg1 id Hne) as [G1 G2].
+           split; congruence.
+        -- intros u l Eu. assert (Hne : u <> (lv, idx)).
+           { intros ->. apply Hnotin. rewrite E, Eu. apply in_or_app. right. left. reflexivity. }
+           destruct (Hg1 u Hne) as [G1 G2]. rewrite <- G1, <- G2. apply (Hu u l Eu).
+    + apply Bool.orb_false_iff in Econd as [Ec1 Ec2].
+      cbn [fst snd]. split; [reflexivity|]. split; [reflexivity|].
+      exists [], ((lv, idx) :: ids). split; [reflexivity|].
+      split; [intros id []|]. split; [intros; split; reflexivity|].
+      intros u l E. inversion E; subst. unfold gv, gu. cbn [fst snd]. split; [exact Ec1|].
+      destruct (Z.gtb_spec (get2 nodes lv idx 0) v); [discriminate | lia].
 Qed.
 
 Theorem tt_setvalue_inv : forall te td tmax x y v, TTInv te td tmax -> tmax <= v ->
@@ -311,49 +341,56 @@ Theorem tt_setvalue_inv : forall te td tmax x y v, TTInv te td tmax -> tmax <= v
   TTInv te' td tmax /\ same_geom te te' /\
   (tt_in_range te x y = true ->
      let leaf := (0, y * tt_w te + x) in
-     nv te' leaf = (if nv te leaf >? v then v else nv te leaf) /\
+     nu te' leaf = false /\
+     nv te' leaf = (if nu te leaf || (nv te leaf >? v) then v else nv te leaf) /\
      (forall x1 y1, tt_in_range te x1 y1 = true -> (x1, y1) <> (x, y) ->
-        nv te' (0, y1 * tt_w te + x1) = nv te (0, y1 * tt_w te + x1))).
+        nv te' (0, y1 * tt_w te + x1) = nv te (0, y1 * tt_w te + x1) /\
+        nu te' (0, y1 * tt_w te + x1) = nu te (0, y1 * tt_w te + x1))).
 Proof.
   intros te td tmax x y v [Hwf [Hg [Ht0 [Hids Hchain]]]] Hv te'. subst te'. unfold tt_setvalue.
   pose proof (wf_same_shapes te Hwf) as Hse.
   destruct (tt_in_range te x y) eqn:Hr.
   2:{ split; [unfold TTInv; auto|]. split; [apply same_geom_refl; exact Hse | discriminate]. }
   set (P := tt_path te x y) in *.
-  destruct (setvalue_ids_spec P (tt_nodes te) v (wf_path_nodup te x y)) as [Hs [ch [un [E [Hch [Hun Hu]]]]]].
-  { intros id Hin. apply (wf_path_valid te x y id Hwf Hr Hin). }
-  set (nodes' := tt_setvalue_ids (tt_nodes te) P v) in *.
-  set (te' := tt_with te nodes' (tt_low te) (tt_known te)).
+  destruct (setvalue_ids_spec P (tt_nodes te) (tt_unset te) v (wf_path_nodup te x y))
+    as [Hs [Hsu [ch [un [E [Hch [Hun Hu]]]]]]].
+  { intros id Hin. pose proof (wf_path_valid te x y id Hwf Hr Hin) as Hvid.
+    split; [exact Hvid | apply same_shapes_vid_unset; assumption]. }
+  set (nodes' := fst (tt_setvalue_ids (tt_nodes te) (tt_unset te) P v)) in *.
+  set (unset' := snd (tt_setvalue_ids (tt_nodes te) (tt_unset te) P v)) in *.
+  set (te' := tt_with te nodes' (tt_low te) (tt_known te) unset').
   assert (Hge : same_geom te te').
-  { unfold same_geom, te', tt_with, same_shapes. cbn [tt_w tt_h tt_lw tt_nodes tt_low tt_known].
-    destruct Hse as [S1 S2]. repeat split; congruence. }
+  { unfold same_geom, te', tt_with, same_shapes. cbn [tt_w tt_h tt_lw tt_nodes tt_low tt_known tt_unset].
+    destruct Hse as [S1 [S2 S3]]. repeat split; congruence. }
   assert (Hnv : forall id, nv te' id = gv nodes' id) by reflexivity.
+  assert (Hnu : forall id, nu te' id = gu unset' id) by reflexivity.
   assert (Hnv0 : forall id, nv te id = gv (tt_nodes te) id) by reflexivity.
+  assert (Hnu0 : forall id, nu te id = gu (tt_unset te) id) by reflexivity.
   assert (Hnl : forall id, nl te' id = nl te id) by reflexivity.
   assert (Hnk : forall id, nk te' id = nk te id) by reflexivity.
-  assert (Hnew_le : forall id, nv te' id <= nv te id).
-  { intros id. rewrite Hnv, Hnv0. destruct (in_dec pair_eq_dec id ch) as [Hin|Hnin].
-    - destruct (Hch id Hin). lia.
-    - rewrite Hun by exact Hnin. lia. }
   assert (HPnd : NoDup (ch ++ un)) by (rewrite <- E; apply wf_path_nodup).
   split.
   { unfold TTInv. split; [apply (wf_tree_geom te te' Hwf Hge)|].
     split; [apply (same_geom_trans te' te td); [apply same_geom_sym; assumption | exact Hg]|].
     split; [exact Ht0|]. split.
     - intros id Hvid. apply (vid_geom te te' id Hge) in Hvid.
-      destruct (Hids id Hvid) as [[R1 R2] [[[I1 I2] I3] [I4 I5]]].
-      unfold NodeRel, NodeInv. rewrite Hnl, Hnk, Hnv.
+      destruct (Hids id Hvid) as [[R1 [R2 R3]] [[I1 I2] [I4 I5]]].
+      unfold NodeRel, NodeInv. rewrite Hnl, Hnk, Hnv, Hnu.
       destruct (in_dec pair_eq_dec id ch) as [Hin|Hnin].
-      + destruct (Hch id Hin) as [A B]. rewrite B. rewrite <- Hnv0 in A.
+      + destruct (Hch id Hin) as [A [B C]]. rewrite B, C. rewrite <- Hnv0, <- Hnu0 in A.
         assert (Hnk0 : nk te id = false).
-        { destruct (nk te id) eqn:Ek; [|reflexivity]. specialize (I3 eq_refl). lia. }
-        rewrite Hnk0 in *. repeat split; try assumption; try lia.
-      + rewrite (Hun id Hnin), <- Hnv0. repeat split; assumption.
+        { destruct (nk te id) eqn:Ek; [|reflexivity]. destruct (I2 eq_refl) as [J1 J2].
+          destruct A as [A|A]; [congruence | lia]. }
+        rewrite Hnk0 in *.
+        split; [split; [exact R1 | split; [exact R2 | discriminate]]|].
+        split; [split; [intros _; lia | discriminate]|]. split; [exact I4 | intros _; lia].
+      + destruct (Hun id Hnin) as [A B]. rewrite A, B, <- Hnv0, <- Hnu0.
+        split; [split; [exact R1 | split; [exact R2 | exact R3]]|].
+        split; [split; [exact I1 | exact I2]|]. split; [exact I4 | exact I5].
     - intros x1 y1 Hr1. rewrite (in_range_geom te te' x1 y1 Hge) in Hr1.
-      rewrite (path_geom te te' x1 y1 Hge). intros pre a b post E1.
-      pose proof (Hchain x1 y1 Hr1 pre a b post E1) as Hold.
+      rewrite (path_geom te te' x1 y1 Hge). intros pre a b post E1 Hua.
       destruct (in_dec pair_eq_dec a ch) as [Hin|Hnin].
-      + destruct (Hch a Hin) as [_ Ba]. rewrite (Hnv a), Ba.
+      + destruct (Hch a Hin) as [_ [Ba _]]. rewrite (Hnv a), Ba.
         apply in_split in Hin as [c1 [c2 Ec]].
         assert (EP : P = c1 ++ a :: (c2 ++ un)) by (rewrite E, Ec, <- app_assoc; reflexivity).
         destruct (wf_path_merge te x1 y1 x y Hwf Hr1 Hr pre a (b :: post) c1 (c2 ++ un) E1 EP) as [Epost _].
@@ -361,21 +398,40 @@ Proof.
         * cbn [app] in Epost. assert (Hbn : ~ In b ch).
           { intros Hb. rewrite <- Epost in HPnd. apply NoDup_remove_2 in HPnd. apply HPnd.
             apply in_or_app. left. exact Hb. }
-          rewrite Hnv, (Hun b Hbn). apply (Hu b post). symmetry. exact Epost.
+          destruct (Hun b Hbn) as [Bv Bu]. rewrite Hnv, Hnu, Bv, Bu.
+          apply (Hu b post). symmetry. exact Epost.
         * cbn [app] in Epost. assert (b = b') by congruence. subst b'.
           assert (Hb : In b ch) by (rewrite Ec; apply in_or_app; right; right; left; reflexivity).
-          destruct (Hch b Hb) as [_ Bb]. rewrite Hnv, Bb. lia.
-      + rewrite (Hnv a), (Hun a Hnin), <- Hnv0. pose proof (Hnew_le b). lia. }
+          destruct (Hch b Hb) as [_ [Bb Bu]]. rewrite Hnv, Hnu, Bb, Bu. split; [reflexivity | lia].
+      + destruct (Hun a Hnin) as [Av Au]. rewrite (Hnv a), Av, <- Hnv0. rewrite Hnu, Au, <- Hnu0 in Hua.
+        destruct (Hchain x1 y1 Hr1 pre a b post E1 Hua) as [Hub Hle].
+        destruct (in_dec pair_eq_dec b ch) as [Hb|Hb].
+        * destruct (Hch b Hb) as [Bc [Bv Bu]]. rewrite Hnv, Hnu, Bv, Bu. split; [reflexivity|].
+          rewrite <- Hnv0, <- Hnu0 in Bc. destruct Bc as [Bc|Bc]; [congruence | lia].
+        * destruct (Hun b Hb) as [Bv Bu]. rewrite Hnv, Hnu, Bv, Bu, <- Hnv0, <- Hnu0. split; assumption. }
   split; [exact Hge|].
   intros _. set (leaf := (0, y * tt_w te + x)). destruct (wf_leaf_id te x y Hwf) as [prest Hp]. fold P in Hp. fold leaf in Hp.
+  assert (Hleaf : (nu te leaf || (nv te leaf >? v) = true -> In leaf ch) /\
+                  (nu te leaf || (nv te leaf >? v) = false -> ~ In leaf ch)).
+  { split.
+    - intros Hc. destruct ch as [|c ch'].
+      + cbn [app] in E. rewrite Hp in E. destruct (Hu leaf prest (eq_sym E)) as [U1 U2].
+        rewrite <- Hnu0 in U1. rewrite <- Hnv0 in U2. rewrite U1 in Hc. cbn [orb] in Hc. apply Z.gtb_lt in Hc. lia.
+      + assert (c = leaf) by (rewrite Hp in E; cbn [app] in E; congruence). subst c. left. reflexivity.
+    - intros Hc Hin. destruct (Hch leaf Hin) as [A _]. rewrite <- Hnv0, <- Hnu0 in A.
+      apply Bool.orb_false_iff in Hc as [C1 C2]. destruct A as [A|A]; [congruence|].
+      destruct (Z.gtb_spec (nv te leaf) v); [discriminate | lia]. }
+  destruct Hleaf as [HL1 HL2].
   split.
-  - rewrite Hnv, Hnv0. destruct (Z.gtb_spec (gv (tt_nodes te) leaf) v) as [Hgt|Hle].
-    + destruct ch as [|c ch'].
-      * cbn [app] in E. rewrite Hp in E. specialize (Hu leaf prest (eq_sym E)). lia.
-      * assert (c = leaf) by (rewrite Hp in E; cbn [app] in E; congruence). subst c.
-        apply (Hch leaf). left. reflexivity.
-    + apply Hun. intros Hin. destruct (Hch leaf Hin). lia.
-  - intros x1 y1 Hr1 Hne. rewrite Hnv, Hnv0. apply Hun. intros Hin.
+  { rewrite Hnu. destruct (nu te leaf || (nv te leaf >? v)) eqn:Ec.
+    - destruct (Hch leaf (HL1 eq_refl)) as [_ [_ C]]. exact C.
+    - destruct (Hun leaf (HL2 eq_refl)) as [_ B]. rewrite B, <- Hnu0.
+      apply Bool.orb_false_iff in Ec as [C1 _]. exact C1. }
+  split.
+  - rewrite Hnv. destruct (nu te leaf || (nv te leaf >? v)) eqn:Ec.
+    + destruct (Hch leaf (HL1 eq_refl)) as [_ [B _]]. exact B.
+    + destruct (Hun leaf (HL2 eq_refl)) as [A _]. rewrite A. reflexivity.
+  - intros x1 y1 Hr1 Hne. rewrite Hnv, Hnu, Hnv0, Hnu0. apply Hun. intros Hin.
     assert (HinP : In (0, y1 * tt_w te + x1) P) by (rewrite E; apply in_or_app; left; exact Hin).
     rewrite Hp in HinP. destruct HinP as [Eq|HinP].
     + unfold leaf in Eq. assert (y * tt_w te + x = y1 * tt_w te + x1) by congruence.
